@@ -539,7 +539,13 @@ fn handle_parse_node<Data: GarnishData>(
         }
         Definition::NestedExpression => match parse_node.get_right() {
             None => {
-                let addr = data.add_expression(current_root_jump.clone())?;
+                // an empty nested expression names the expression it is written in, as reapply does, not the
+                // out-of-line root (conditional arm, logical operand) that is being built at the moment
+                let containing = match nodes.get(node_index) {
+                    Some(Some(node)) => node.containing_expression_jump.clone(),
+                    _ => current_root_jump.clone(),
+                };
+                let addr = data.add_expression(containing)?;
                 data.push_instruction(Instruction::Put, Some(addr))?;
                 instruction_metadata.push(InstructionMetadata::new(Some(node_index)));
             }
